@@ -355,10 +355,9 @@ WaitStep(cc) ==
     THEN LET o == Flat(c1.buf["out"])
              e == IF "err" \in DTs THEN Flat(c1.buf["err"]) ELSE <<>>
              r == [k |-> "wait", v |-> o, v2 |-> e, x |-> c1.exit]
-             sn == [B |-> SubSeq(c1.eff["out"], c1.pos["out"] + 1, Len(c1.eff["out"])),
-                    B2 |-> IF "err" \in DTs
-                           THEN SubSeq(c1.eff["err"], c1.pos["err"] + 1, Len(c1.eff["err"]))
-                           ELSE <<>>,
+             unread(d) == IF d \notin DTs \/ c1.tgt[d].on THEN <<>>
+                          ELSE SubSeq(c1.eff[d], c1.pos[d] + 1, Len(c1.eff[d]))
+             sn == [B |-> unread("out"), B2 |-> unread("err"),
                     all |-> \A d \in DTs : c1.tgt[d].on \/ DataOf(c1.eff[d]) = DataOf(S[d])]
          IN [c1 EXCEPT !.call["w"] = NoCall,
                        !.buf = [d \in DTs |-> <<>>],
